@@ -205,6 +205,8 @@ class B:
                     acc_base.add('const:%s:%s' % (k['v'], k['ty']))
                 if 'cdef' in k:
                     acc_base.add('cdef:' + k['cdef'])
+                if 'prom' in k:
+                    acc_base.update(self.promoted_tokens(k['prom']))
             elif 'fn' in o:
                 acc_base.add('fnref:' + o['fn'])
             else:
@@ -333,6 +335,22 @@ class B:
     def _is_mut_ref_chain(self, l):
         return self.r['locals'][l]['ty'].startswith('&mut')
 
+    def promoted_tokens(self, idx):
+        """Base tokens (constants, aggregates) of a promoted constant body."""
+        out = set()
+        proms = self.r.get('promoted') or []
+        if idx >= len(proms):
+            return out
+        for blk in proms[idx]:
+            for s in blk['s']:
+                r = s['r']
+                if r['k'] == 'agg' and r.get('ak') == 'adt':
+                    out.add('agg:%s::%s' % (r['adt'], r['v']))
+                for o in r.get('o', ()):
+                    if 'k' in o and 'v' in o['k']:
+                        out.add('const:%s:%s' % (o['k']['v'], o['k']['ty']))
+        return out
+
     def operand_origins(self, o):
         """Origins of an operand (place or constant)."""
         orig = self.origins()
@@ -343,6 +361,8 @@ class B:
                 out.add('const:%s:%s' % (k['v'], k['ty']))
             if 'cdef' in k:
                 out.add('cdef:' + k['cdef'])
+            if 'prom' in k:
+                out |= self.promoted_tokens(k['prom'])
         elif 'fn' in o:
             out.add('fnref:' + o['fn'])
         else:
@@ -386,8 +406,14 @@ def guard_switches(b, sink_blocks, require, within=None):
     for i, t in b.switches():
         if within is not None and i not in within:
             continue
+        if i not in can:
+            continue
         succs = [j for (j, _) in b.succ(i)]
         rej = [j for j in succs if j not in can]
+        if not rej:
+            # loop-aware: an edge that can reach the sink only by coming back through this very branch
+            can_i = b.can_reach(set(sink_blocks), removed=frozenset([i]))
+            rej = [j for j in succs if j not in can_i]
         if not rej:
             continue
         # ignore `unreachable` arms as rejecting edges
